@@ -262,6 +262,15 @@ pub fn c19_configs(tier: Tier) -> Vec<(Cfg, usize)> {
     c.root = pre_logs(2, vec![Op::Add, Op::Add, Op::Msg(0, 1), Op::Tick(1)]);
     c.msgs = vec!["q".into(), "q".repeat(7), "q".repeat(11)];
     v.push((c, if tier == Tier::Quick { 3 } else { 4 }));
+    // a wrapped, visibly finished bar that was dropped while not first (reaped lazily by a later draw)
+    let mut c = Cfg::base("c19-wrapped-deferred-zombie", 6, 14);
+    c.max_bars = 3;
+    c.inserts = false;
+    c.suspend = false;
+    c.bar_println = false;
+    c.root = pre_logs(2, vec![Op::Add, Op::Add, Op::Add, Op::Tick(0), Op::Msg(1, 2), Op::Tick(2), Op::Finish(1), Op::DropBar(1)]);
+    c.msgs = vec!["q".into(), "q".repeat(7), "q".repeat(11)];
+    v.push((c, if tier == Tier::Quick { 3 } else { 4 }));
     // a two-line template on a short terminal
     let mut c = Cfg::base("c19-two-line", 5, 3);
     c.height_clauses = true;
